@@ -13,7 +13,7 @@
      mul    ScalarMul (double-and-add) = iterated sum MulSeq = Lopez-Dahab evaluation ScalarMulLD for all k in
             0 .. 2*order+2, order * P = O, HasOrder(P, k) <=> k P = O, MulAdd = sum of multiples
      big    the GF2Poly instantiation over GF(2^m) agrees with the integer instantiation over K through phi
-            (addition / subtraction rows, multiples, on-curve test)
+            (addition / subtraction rows, multiples, on-curve test)                          (curves with <= BigMax points)
    and, in the large fields listed in IOEnv.FIELDS2 (ndjson {m, k, l, l1}):
      fld    F is irreducible (Rabin), BRed = PMod on seeded products, a * a^(-1) = 1
    and, on the DSTU 4145-2002 curve over GF(2^163) (the first curve of its table of recommended curves, with the base
@@ -25,6 +25,7 @@ EXTENDS EC2Embed, Prng, Json, IOUtils, TLC
 Curves == ndJsonDeserialize(IOEnv.CURVES2)
 Fields == ndJsonDeserialize(IOEnv.FIELDS2)
 AssocMax == atoi(IOEnv.ASSOC_MAX)
+BigMax == atoi(IOEnv.BIG_MAX)
 WithDstu == IOEnv.WITH_DSTU = "1"
 Seed == atoi(IOEnv.GEN_SEED)
 NC == Len(Curves)
@@ -137,7 +138,7 @@ AllCases ==
   \cup UNION {{<<"grp", c, i>> : i \in 1..Ord(c)} : c \in 1..NC}
   \cup UNION {{<<"mul", c, i>> : i \in 1..Ord(c)} : c \in 1..NC}
   \cup UNION {{<<"assoc", c, i>> : i \in 1..Ord(c)} : c \in {d \in 1..NC : Ord(d) <= AssocMax}}
-  \cup UNION {{<<"big", c, i>> : i \in 1..Ord(c)} : c \in {d \in 1..NC : Ord(d) <= AssocMax}}
+  \cup UNION {{<<"big", c, i>> : i \in 1..Ord(c)} : c \in {d \in 1..NC : Ord(d) <= BigMax}}
   \cup {<<"fld", t, 0>> : t \in 1..NF}
   \cup (IF WithDstu THEN {<<"d163", 0, k>> : k \in 1..4} ELSE {})
 CaseOk(x) ==
